@@ -151,11 +151,12 @@ PROPS = {
         explanation='Path validity of find_path and the heap order kernel proved; optimality, completeness and the other queries bounded.',
     ),
     'C19': dict(
-        v=['C19_chunk'], k=[], b=['c19_blob'],
+        v=['C19_chunk', 'C19_refs'], k=[], b=['c19_blob'],
+        pairs={'C19_refs': ['bounded:c19_blob'], 'C19_chunk': ['bounded:c19_blob']},
         level='other',
-        technique='Verus contract on extracted Chunker::chunk_count (nonlinear lemma; div_ceil by assumed std contract)',
-        claim='chunk count is ceil(len/chunk_size) for every len and chunk_size >= 1 (Verus)',
-        explanation='Chunk arithmetic proved; blob operations bounded.',
+        technique='Verus: chunk reference counting and garbage collection extracted and proved against a ghost key -> record map: BlobWriter::store_chunk lists a chunk exactly when it adds one to its count, increment/decrement_chunk_refs change exactly that count (never below zero), delete_artifact decrements each chunk once per listing and touches no unlisted chunk, GarbageCollector::gc_cycle deletes only chunks whose count is zero; Chunker::chunk_count proved (nonlinear lemma; div_ceil by assumed std contract); bounded native checks of put/get/stream round trips, refcount view, gc and repair over short operation sequences',
+        claim='one listing == one count, per-listing decrement, gc deletes only zero-count chunks and nothing else: for every store state (Verus; TensorStore get/put/delete and record field access assumed, single thread); chunk count is ceil(len/chunk_size) for every len and chunk_size >= 1 (Verus); BOUNDED: bytes returned == bytes written for every enumerated write pattern, verify/repair behaviour, full_gc',
+        explanation='Reference-count kernel and chunk arithmetic proved; byte-level round trips, full_gc/repair and streaming bounded; concurrent writers/gc not covered.',
     ),
     'C20': dict(
         v=['C20_ids', 'C20_rle', 'C06_sparse', 'C20_frame'],
